@@ -800,7 +800,7 @@ fn run_rd(c: &Case) -> Obs {
                 }
             }
             // FASTA: a CR LF pair split over two fills of the AsyncBufRead keeps the CR in the sequence
-            if fmt == "fasta" && file.windows(2).any(|w| w == b"\r\n") {
+            if fmt == "fasta" && file.contains(&b'\r') {
                 let strip = |t: &T| -> T { t.iter().map(|x| if x.starts_with("seq:") { x.replace("0d", "") } else { x.clone() }).collect() };
                 let a_has_cr = a.iter().any(|x| x.starts_with("seq:") && x[4..].as_bytes().chunks(2).any(|c| c == b"0d"));
                 if a_has_cr && strip(&s) == strip(&a) {
@@ -1223,26 +1223,37 @@ fn run_wr(c: &Case) -> Obs {
         }
         "cram" => {
             let (h, recs) = parse_sam(&sam_text_ln(&mut rng, 30, false, false, 1500));
-            let mut w = cram::io::writer::Builder::default()
-                .set_reference_sequence_repository(repository())
-                .build_from_writer(Vec::new());
-            w.write_header(&h).unwrap();
-            for r in &recs {
-                w.write_alignment_record(&h, r).unwrap();
-            }
-            w.try_finish(&h).unwrap();
-            let s = w.get_ref().clone();
-            let a = block_on(async {
-                let mut w = cram::r#async::io::writer::Builder::default()
+            // the CRAM record conversion can panic on some records (a sync-side defect, C07); a panic
+            // is an observation that both writers must share
+            let sres = guarded(std::panic::AssertUnwindSafe(|| {
+                let mut w = cram::io::writer::Builder::default()
                     .set_reference_sequence_repository(repository())
-                    .build_from_writer(sink);
-                w.write_header(&h).await?;
+                    .build_from_writer(Vec::new());
+                w.write_header(&h).unwrap();
                 for r in &recs {
-                    w.write_alignment_record(&h, r).await?;
+                    w.write_alignment_record(&h, r).unwrap();
                 }
-                w.shutdown(&h).await
-            });
-            (s, a, false, !recs.is_empty())
+                w.try_finish(&h).unwrap();
+                w.get_ref().clone()
+            }));
+            let ares = guarded(std::panic::AssertUnwindSafe(|| {
+                block_on(async {
+                    let mut w = cram::r#async::io::writer::Builder::default()
+                        .set_reference_sequence_repository(repository())
+                        .build_from_writer(sink);
+                    w.write_header(&h).await?;
+                    for r in &recs {
+                        w.write_alignment_record(&h, r).await?;
+                    }
+                    w.shutdown(&h).await
+                })
+            }));
+            match (sres, ares) {
+                (Outcome::Done(s), Outcome::Done(a)) => (s, a, false, !recs.is_empty()),
+                (Outcome::Panicked(_), Outcome::Panicked(_)) => return Obs { obs: "-".into(), verdict: "skip".into(), nontrivial: false },
+                (Outcome::Panicked(m), _) => return Obs::fail("-", "async-cram-panic-differs", format!("seed={seed} only the sync writer panicked: {m}")),
+                (_, Outcome::Panicked(m)) => return Obs::fail("-", "async-cram-panic-differs", format!("seed={seed} only the async writer panicked: {m}")),
+            }
         }
         _ => return Obs::fail("-", "harness-unknown-kind", fmt),
     };
@@ -1357,7 +1368,7 @@ pub fn generate(rng: &mut Rng, tier: &str, w: &mut CaseWriter) {
             }
         };
         let payload = if is_bgzf_fmt(fmt) { bgzf_decode(&f).unwrap() } else { f.clone() };
-        let step = if thorough { 1 } else { 3 };
+        let step = (if thorough { 1 } else { 3 }).max(payload.len() / (if thorough { 1500 } else { 200 }));
         for k in (0..payload.len()).step_by(step) {
             let cut = if is_bgzf_fmt(fmt) {
                 let br = if k % 2 == 0 { vec![] } else { vec![k / 2] };
